@@ -304,7 +304,21 @@ func (w *W) c16Judge(k int, g string, doc []byte, nd bool) {
 			src = p2.Clone(nil).Clone(nil)
 		}
 		var dst *simdjson.ParsedJson
-		switch r.Intn(3) {
+		switch r.Intn(4) {
+		case 3:
+			// a destination that holds a clone of another document of exactly the same size and shape
+			// (this document with its digits rotated: same input length, same tape length, other bytes),
+			// parsed the same way: nothing about equal sizes says the contents are equal
+			twin := append([]byte{}, doc...)
+			for i, c := range twin {
+				if c >= '1' && c <= '9' {
+					twin[i] = '1' + (c-'1'+1)%9
+				}
+			}
+			if tp, e := parse(twin, variant == 1, nil); e == nil {
+				dst = tp.Clone(nil)
+				w.Count("clones_into_a_destination_holding_a_same_sized_twin", 1)
+			}
 		case 0:
 			// the destination every earlier document of this worker was cloned into: its
 			// buffers hold whatever came before, longer or shorter than this document
